@@ -133,9 +133,12 @@ pub fn arr(v: Vec<Mini>) -> Mini {
 }
 
 
+/// `Queryable` requires `Default` but says nothing about its value; a faithful data type may
+/// have any default. Mini's is deliberately NOT its null, so an engine that reached for
+/// `T::default()` where RFC 9535 says `null` would be seen (C15).
 impl Default for Mini {
     fn default() -> Self {
-        Mini::Null
+        Mini::Bool(true)
     }
 }
 
